@@ -55,8 +55,8 @@ EXHAUSTIVE = True
 EXHAUSTIVE_SCOPE = {
     "quick": "api: all sequences len<=4 over 8 calls x 2 initial docs, all command sequences len<=4 over 7 commands; "
              "keys: all sequences len<=3 over 9 emacs keys and 9 vi keys; fully modelled emacs keys: all sequences "
-             "len<=4 over {a, b, backspace, left, c-k, c-_, redo}; fully modelled vi keys: all sequences len<=4 over "
-             "{i, a, x, u, escape, redo}",
+             "len<=3 over {a, b, backspace, left, c-k, c-_, redo} (+700 sampled of len 4-5); fully modelled vi keys: "
+             "all sequences len<=3 over {i, a, x, u, escape, redo} (+500 sampled of len 4-6)",
     "thorough": "api: all sequences len<=5 over 8 calls x 2 initial docs, all command sequences len<=6 over 7 commands; "
                 "keys: all sequences len<=4 over 9 emacs keys and 9 vi keys; fully modelled emacs keys: all sequences "
                 "len<=5 over {a, b, backspace, left, c-k, c-_, redo}; fully modelled vi keys: all sequences len<=6 over "
@@ -754,7 +754,7 @@ def cases(tier, rng):
                 odd = n % 2
                 kcases.append({"kind": "keys", "mode": mode, "multiline": False, "text": "xy" if odd else "",
                                "cur": 1 if odd else 0, "history": [], "ops": _flatten([[k] for k in tup])})
-    for _ in range(700 if quick else 16000):
+    for _ in range(500 if quick else 16000):
         mode = rng.choice(["emacs", "vi"])
         toks = EMACS_TOKENS if mode == "emacs" else VI_TOKENS
         n = rng.choice([0, 0, 1, 2, 3, 6, 12])
@@ -783,13 +783,15 @@ def cases(tier, rng):
     # ---- fully modelled emacs keys: the model predicts the text too, rules and identities are static
     ecases = []
     small = ["a", "b", "c-h", "left", "c-k", "c-_", "f12"]
-    maxlen = 4 if quick else 5
-    for n in range(1, maxlen + 1):
-        for tup in itertools.product(small, repeat=n):
-            odd = n % 2
-            ecases.append({"kind": "ekeys", "multiline": False, "text": "xy" if odd else "", "cur": 1 if odd else 0,
-                           "ops": [[k, k if len(k) == 1 else None] for k in tup]})
-    for _ in range(400 if quick else 6000):
+    maxlen = 3 if quick else 5
+    tups = [t for n in range(1, maxlen + 1) for t in itertools.product(small, repeat=n)]
+    if quick:   # beyond the exhaustive bound: a seeded sample of the length-4/5 sequences
+        tups += [tuple(rng.choice(small) for _ in range(rng.choice([4, 4, 5]))) for _ in range(700)]
+    for tup in tups:
+        odd = len(tup) % 2
+        ecases.append({"kind": "ekeys", "multiline": False, "text": "xy" if odd else "", "cur": 1 if odd else 0,
+                       "ops": [[k, k if len(k) == 1 else None] for k in tup]})
+    for _ in range(250 if quick else 6000):
         n = rng.choice([0, 1, 2, 3, 6, 12])
         text = "".join(rng.choice(["a", "b", " ", "x", "\n", "世"]) for _ in range(n))
         if rng.random() < 0.5:
@@ -802,13 +804,15 @@ def cases(tier, rng):
         ecases.append({"kind": "ekeys", "multiline": "\n" in text, "text": text, "cur": cur, "ops": ops})
     # ---- fully modelled vi keys
     vcases = []
-    maxlen = 4 if quick else 6
-    for n in range(1, maxlen + 1):
-        for tup in itertools.product(VKEYS, repeat=n):
-            m = n % 3
-            vcases.append({"kind": "vkeys", "multiline": m == 2, "text": ["", "xy", "ab\ncd"][m], "cur": [0, 1, 2][m],
-                           "ops": [[k, k if len(k) == 1 else None] for k in tup]})
-    for _ in range(400 if quick else 6000):
+    maxlen = 3 if quick else 6
+    tups = [t for n in range(1, maxlen + 1) for t in itertools.product(VKEYS, repeat=n)]
+    if quick:
+        tups += [tuple(rng.choice(VKEYS) for _ in range(rng.choice([4, 5, 6]))) for _ in range(500)]
+    for tup in tups:
+        m = len(tup) % 3
+        vcases.append({"kind": "vkeys", "multiline": m == 2, "text": ["", "xy", "ab\ncd"][m], "cur": [0, 1, 2][m],
+                       "ops": [[k, k if len(k) == 1 else None] for k in tup]})
+    for _ in range(250 if quick else 6000):
         n = rng.choice([0, 1, 2, 3, 6, 12])
         text = "".join(rng.choice(["a", "b", " ", "x", "\n", "世"]) for _ in range(n))
         if rng.random() < 0.5:
